@@ -49,6 +49,10 @@ pub struct ModulePlan {
     pub rooted: Vec<Vec<bool>>,
     /// `from f use (a,\n b)` parenthesised multi-line import lists
     pub paren_lists: bool,
+    /// give this (non-main) module an entry point of its own, `start :: fn do end`, which the main file's `start` calls
+    /// through the module's namespace as its last statement (a module that is also a program)
+    #[serde(default)]
+    pub module_start: Option<usize>,
 }
 
 impl Default for Plan {
@@ -1172,6 +1176,41 @@ pub fn print_files(p: &Program, plan: &Plan) -> PrintedFiles {
             unreachable_lines.insert(*k, *v);
         }
         files.insert(format!("/p/{}.sy", m.files[f]), format!("{}{}", header, pr.out));
+    }
+    // a module with its own `start`
+    if let Some(k) = m.module_start {
+        let main_path = format!("/p/{}.sy", m.files[0]);
+        if k > 0 && k < m.files.len() {
+            let mod_path = format!("/p/{}.sy", m.files[k]);
+            let main_text = files.get(&main_path).cloned().unwrap_or_default();
+            // the namespace under which the main file knows that module (a `use path` / `use path as ns` line)
+            let plain = import_path(&m.files[0], &m.files[k], false);
+            let rooted = import_path(&m.files[0], &m.files[k], true);
+            let mut ns: Option<String> = None;
+            for l in main_text.lines() {
+                if !(l.starts_with("use ") || l.starts_with("from ")) {
+                    break;
+                }
+                let mut it = l.split_whitespace();
+                if it.next() == Some("use") {
+                    let path = it.next().unwrap_or("");
+                    if path == plain || path == rooted {
+                        ns = Some(match (it.next(), it.next()) {
+                            (Some("as"), Some(a)) => a.to_string(),
+                            _ => module_ns(path),
+                        });
+                    }
+                }
+            }
+            let lines: Vec<&str> = main_text.lines().collect();
+            if let (Some(ns), Some(mod_text), Some(last)) = (ns, files.get(&mod_path).cloned(), lines.iter().rposition(|l| *l == "end")) {
+                let nl = if plan.crlf { "\r\n" } else { "\n" };
+                let mut out: Vec<String> = lines.iter().map(|x| x.to_string()).collect();
+                out.insert(last, format!("    {}.start()", ns));
+                files.insert(main_path, out.join("\n") + "\n");
+                files.insert(mod_path, format!("{}start :: fn do{}end{}", mod_text, nl, nl));
+            }
+        }
     }
     PrintedFiles { files, main: format!("/p/{}.sy", m.files[0]), unreachable_lines, import_styles_used: styles, cross_file_refs: cross }
 }
